@@ -1,7 +1,7 @@
 (* C17 - resuming a session re-sends exactly the unfinished outbound handshakes.
    The disconnection is recorded through the hook the property names
    (Context::verif_mark_disconnected, --cfg poster_verif); elapsed time is a model parameter. *)
-From Poster Require Import Model.Client Proofs.ClientP Proofs.QuotaP Proofs.HandshakeP Proofs.ResumeP.
+From Poster Require Import Model.Sim Proofs.ClientP Proofs.QuotaP Proofs.HandshakeP Proofs.ResumeP Proofs.SimInvP Proofs.OwnP Proofs.TraceP.
 
 (* expiry: interval 0, or a finite interval that has elapsed; 0xFFFFFFFF never expires *)
 Theorem C17_expiry : forall (x : ctx) (t : N), t < 4294967296 ->
@@ -73,3 +73,46 @@ Example C17_nonvacuous :
      QPkt (mkrx KPuback false false false 0 1 0 [] [] [] [])]
   = [(aid 7 2, rel2)].
 Proof. vm_compute. reflexivity. Qed.
+
+(* ---- run() on a Context that recorded a disconnection -----------------------------------------------------------------------
+   (Model/Sim.v start_run: the top of Context::run - is_reconnect / session_expired / reset_session / retransmit, then the
+   run loop.)  Not expired: before anything else - before any request queued meanwhile is looked at, before anything the
+   server sends is answered - run() writes the retransmit queue in order: by C17_queue_is_unfinished exactly the
+   unfinished handshakes, PUBLISH copies with DUP set. *)
+Theorem C17_resumed_first : forall (s : sys) (t : N), wbudget s = None -> disc_ts (c s) = Some t ->
+  session_expired (c s) t = false ->
+  exists tail, wire_ev (start_run s) = wire_ev s ++ concat (map snd (retx (c s))) ++ tail.
+Proof. exact start_run_resumes. Qed.
+Print Assumptions C17_resumed_first.
+
+(* Expired: the retransmit queue, the awaited acknowledgements and the subscriptions of the old session are dropped -
+   nothing of it is re-sent - and every operation that was awaiting an acknowledgement is resolved: no longer waiting
+   on an empty oneshot, its next poll reports ContextExited (C14_pending_phase1/2) instead of hanging; then the run loop
+   serves the new session. *)
+Theorem C17_expired : forall (s : sys) (t : N), disc_ts (c s) = Some t -> session_expired (c s) t = true ->
+  let s1 := reset_session (set_cph s CIdle) in
+  retx (c s1) = [] /\ awaiting (c s1) = [] /\ subs (c s1) = [] /\
+  (forall a i ph, In (a, (i, ph)) (awaiting (c s)) -> ~ unresolved s1 i (nph ph)) /\
+  start_run s = settle (set_cph (set_c s1 (with_sei_ts (c s1) (sei (c s1)) None)) CRunning).
+Proof. exact start_run_expired. Qed.
+Print Assumptions C17_expired.
+
+(* expiry 1000 s, disconnected 10 s ago: the unfinished PUBLISH (DUP) and PUBREL come first, then the request queued
+   before run(); disconnected 5000 s ago: nothing is re-sent and the two abandoned operations report ContextExited *)
+Example C17_run_nonvacuous :
+  let mk t := final_state sys_init
+    [EConnect (Build_connect_opts [99] 0 (Some 1000) None None None None None None None [] 0 false false
+                 None None None None None None [] None None None None);
+     EDeliver [32; 3; 0; 0; 0]; ERun;
+     EStart 0 0 (OPub (Build_publish_opts 1 false (Some [116]) None None None None None None None [])); EPoll 0;
+     EStart 1 0 (OPub (Build_publish_opts 2 false (Some [116]) None None None None None None None [])); EPoll 1;
+     EDeliver [80; 2; 0; 2]; EPoll 1; EMarkDisc t; EReconnect;
+     EConnect (Build_connect_opts [99] 0 (Some 1000) None None None None None None None [] 0 false false
+                 None None None None None None [] None None None None);
+     EDeliver [32; 3; 1; 0; 0];
+     EStart 2 0 OPing; EHold; EPoll 2; ERelease] in
+  wire_ev (start_run (begin_ev (mk 10))) = [58; 6; 0; 1; 116; 0; 1; 0; 98; 2; 0; 2; 192; 0] /\
+  wire_ev (start_run (begin_ev (mk 5000))) = [192; 0] /\
+  snd (poll_op (start_run (begin_ev (mk 5000))) 0) = [ODone 0 RErrExited] /\
+  snd (poll_op (start_run (begin_ev (mk 5000))) 1) = [ODone 1 RErrExited].
+Proof. vm_compute. auto. Qed.
